@@ -22,8 +22,11 @@ def jump_bound(ctx, o, ps: PassShape, pt):
         return
     n = 0
     for c in ps.pass_calls():
-        fo = ps.call_loop(c)
-        if fo is None or not same(fo.iter, pt['iter']):
+        ci = ps.call_iter(c) if hasattr(ps, 'call_iter') else None
+        if ci is None:
+            fo = ps.call_loop(c)
+            ci = (fo, fo.iter) if fo is not None else None
+        if ci is None or not same(ci[1], pt['iter']):
             continue
         n += 1
         b = ps.ex.expand(c.args[1], ps.cfg.node_containing(c)) if len(c.args) > 1 else None
@@ -36,7 +39,28 @@ def jump_bound(ctx, o, ps: PassShape, pt):
             o.refute(ps.f, c, c, f"a task reached through a dependency link is scheduled with bound `{src(b) if b is not None else '?'}`; "
                                  f"expected the project bound")
     if n == 0:
-        o.refute(ps.f, ps.f.node, 'dependency recursion', "no recursion over the dependency collection found")
+        # recognised wrong shape: the recursion ranges over the task's OWN dependencies only, while the bound term also reads
+        # the dependencies inherited from the ancestors
+        own_only = []
+        for c in ps.pass_calls():
+            ci = ps.call_iter(c) if hasattr(ps, 'call_iter') else None
+            if ci is None:
+                continue
+            coll = sched.strip_seq_copy(ps.ex.expand(ci[1], ps.cfg.node_of(ci[0]))) if hasattr(sched, 'strip_seq_copy') else ps.ex.expand(ci[1], ps.cfg.node_of(ci[0]))
+            parts = facts.comp_parts(coll)
+            if parts and isinstance(parts[0], ast.Name) and isinstance(parts[1], ast.Name) and parts[0].id == parts[1].id and not parts[3]:
+                coll = parts[2]
+            if match(f"{ps.task}.{ps.rel}", coll):
+                own_only.append((c, ci[0]))
+        srcs = pt.get('sources') or {}
+        if own_only and srcs.get('ancestors') and len(ps.pass_calls()) == 2:
+            c, fo = own_only[0]
+            o.refute(ps.f, fo, fo, f"only the task's own {ps.rel} are handed to the recursive pass (`for .. in {src(fo.iter)[:40]}`); the {ps.rel} inherited "
+                                   f"from ancestor summaries are read in `{pt['name']}` without having been scheduled first")
+        elif ps.pass_calls():
+            o.undecided(ps.f, ps.f.node, 'dependency recursion', "no recursive call recognised as the recursion over the dependency collection")
+        else:
+            o.refute(ps.f, ps.f.node, 'dependency recursion', "the pass never recurses: dependencies are not scheduled first")
 
 
 # --------------------------------------------------------------------------------------------------------------------
@@ -50,21 +74,34 @@ def first_fit_and_greedy(ctx, o, S):
     if len(loops) != 1:
         o.undecided(f, f.node, 'search', "search is not a single loop")
     else:
+        cfg = cfg_of(f)
         lp = loops[0]
+        exs = Expander(prog, f, ctx.typer)
+        loop_tests = [n.test for n in walk_no_nested(f.node) if isinstance(n, ast.While)]
         for r in rets:
-            conds = facts.node_conditions(prog, f, r, ctx.typer)
+            conds = []
+            for t0, pol0 in cfg.conditions(cfg.node_of(r)):
+                if pol0 and any(t0 is lt_ for lt_ in loop_tests):
+                    continue        # the step bound of a `while steps < max_steps` search loop, not a condition on the day
+                conds += facts.split_conj(exs.expand(t0, cfg.node_containing(t0)), pol0)
             extra = []
             okfree = False
             for t, pol in conds:
                 st = sched.sign_test(t, pol)
                 if st and parse_free(st[0], S['balance']) and st[1] == '>':
                     okfree = True
+                elif isinstance(t, (ast.For, ast.While)) or (isinstance(t, ast.Constant) and bool(t.value) == pol):
+                    continue        # loop header / constant guard
+                elif pol and any(t is lt_ or any(x is t for x in ast.walk(lt_)) for lt_ in loop_tests):
+                    continue        # the step bound of a `while steps < max_steps` search loop, not a condition on the day
                 else:
                     extra.append((t, pol))
             if okfree and not extra:
                 o.site(f, r, "return at the first day with free > 0")
             elif okfree:
                 o.refute(f, r, r, "the search skips days with free capacity unless " + ', '.join(facts.cond_texts(extra)))
+            elif any(sched.sign_test(t, pol) is None for t, pol in extra):
+                o.undecided(f, r, r, "the search returns under " + ', '.join(facts.cond_texts(extra))[:100] + ": not a free-capacity test the rule recognises")
             else:
                 o.refute(f, r, r, "the search result is not conditioned on free > 0")
         if isinstance(lp, ast.For):
@@ -77,16 +114,49 @@ def first_fit_and_greedy(ctx, o, S):
     for c in sched.reserve_calls(ctx, fill):
         amt = ex.expand(c.args[3]) if len(c.args) == 4 else None
         margs = facts.flatten_lattice(amt, 'min') if amt is not None else None
-        if margs is None or len(margs) != 2:
+        frees = [a for a in (margs or []) if parse_free(a, S['balance'])]
+        rem = [a for a in (margs or []) if not parse_free(a, S['balance'])]
+        if margs is not None and len(margs) == 2 and len(frees) == 1 and len(rem) == 1 and isinstance(rem[0], ast.Name):
+            o.site(fill, c, f"amount = min({src(rem[0])}, free)")
+            continue
+        lp = sched.while_loop_of(fill, c)
+        lt = sched.sign_test(lp.test) if lp is not None else None
+        guard_var = lt[0].id if lt and isinstance(lt[0], ast.Name) else None
+        unres = [x for x in (_unresolved(fill, amt) if amt is not None else []) if not (isinstance(x, ast.Name) and x.id == guard_var)]
+        if unres:
+            o.undecided(fill, c, c.args[3], f"booked amount `{src(amt)[:70]}` contains `{src(unres[0])[:40]}`, which the rule cannot resolve")
+        elif margs is None or len(margs) != 2:
             o.refute(fill, c, c.args[3] if len(c.args) == 4 else c, f"booked amount is `{src(amt) if amt is not None else '?'}`, not min(remaining, free): "
                                                                      f"a day is not taken whole")
-            continue
-        frees = [a for a in margs if parse_free(a, S['balance'])]
-        rem = [a for a in margs if not parse_free(a, S['balance'])]
-        if len(frees) == 1 and len(rem) == 1 and isinstance(rem[0], ast.Name):
-            o.site(fill, c, f"amount = min({src(rem[0])}, free)")
         else:
             o.refute(fill, c, c.args[3], f"booked amount `{src(amt)[:90]}` is not min(remaining, free)")
+
+
+def _unresolved(f, e):
+    """terms of an expanded arithmetic expression the Expander could not resolve: locals with several definitions that are not
+    parameters, results of calls other than the known arithmetic / ledger / capacity ones.  Arguments of capacity / ledger
+    queries (the day cursor, the resource) are not terms of the arithmetic and are not looked at."""
+    fl = flow_of(f)
+    out = []
+
+    def walk(x):
+        if isinstance(x, ast.Name):
+            if isinstance(x.ctx, ast.Load) and x.id not in f.params and len(fl.defs_of(x.id)) > 1:
+                out.append(x)
+        elif parse_cap(x) or sched._resv_call(x):
+            return
+        elif isinstance(x, ast.Call):
+            if isinstance(x.func, ast.Name) and x.func.id in ('min', 'max', 'abs', 'round', 'float', 'int', 'timedelta', 'datetime', 'sum'):
+                for a in list(x.args) + [k.value for k in x.keywords]:
+                    walk(a)
+            else:
+                out.append(x)
+        elif isinstance(x, (ast.BinOp, ast.UnaryOp, ast.IfExp, ast.BoolOp, ast.Compare, ast.Tuple, ast.List)):
+            for ch in ast.iter_child_nodes(x):
+                if isinstance(ch, ast.expr):
+                    walk(ch)
+    walk(e)
+    return out
 
 
 # --------------------------------------------------------------------------------------------------------------------
@@ -123,7 +193,11 @@ def encoding(ctx, o, ps: PassShape):
         caps = _find(v, parse_cap)
         resvs = _outer_only(_find(v, lambda n: parse_resv(n, S['balance'])))
         if not caps or not resvs:
-            o.refute(f, r, r, f"search result `{src(v)[:100]}` does not encode the booked share RESV/CAP of the day")
+            unres = [x for x in _unresolved(f, v) if not (isinstance(x, ast.Call) and isinstance(x.func, ast.Attribute) and x.func.attr in ('replace', 'combine', 'date', 'min', 'time'))]
+            if unres:
+                o.undecided(f, r, r, f"search result `{src(v)[:80]}` contains `{src(unres[0])[:40]}`, which the rule cannot resolve")
+            else:
+                o.refute(f, r, r, f"search result `{src(v)[:100]}` does not encode the booked share RESV/CAP of the day")
             continue
         cap0, resv0 = caps[0], resvs[0]
         if not all(same(c[0], cap0[0]) for c in caps) or not all(same(x[0], resv0[0]) for x in resvs):
@@ -200,7 +274,11 @@ def encoding(ctx, o, ps: PassShape):
         v = exf.expand(r.value)
         resvs = _outer_only(_find(v, lambda n: parse_resv(n, S['balance'])))
         if len(resvs) != 1:
-            o.refute(fill, r, r, f"fill result `{src(v)[:100]}` does not contain exactly one ledger sum")
+            unres = _unresolved(fill, v)
+            if not resvs and unres:
+                o.undecided(fill, r, r, f"fill result `{src(v)[:80]}` contains `{src(unres[0])[:40]}`, which the rule cannot resolve")
+            else:
+                o.refute(fill, r, r, f"fill result `{src(v)[:100]}` does not contain exactly one ledger sum")
             continue
         resv = resvs[0]
         if resv[1]['kind'] == 'sel-other':
@@ -267,6 +345,21 @@ def encoding(ctx, o, ps: PassShape):
         entry = cfg.loop_entry_branch(loop) if loop is not None else None
         if rn is not None and not flf.no_def_between(attr_or_name(dvar), rnode, rn, {entry.id} if entry else None):
             o.refute(fill, r, r, "the day variable is stepped between the last booking and the computation of the result")
+
+
+def _reach_avoiding(cfg, a, b, avoid):
+    """b reachable from a without passing the node `avoid` (the loop entry: stays within one iteration)"""
+    seen, todo = set(), [a]
+    while todo:
+        n = todo.pop()
+        for s_ in n.succ:
+            if s_ is avoid or s_.id in seen:
+                continue
+            if s_ is b:
+                return True
+            seen.add(s_.id)
+            todo.append(s_)
+    return False
 
 
 def attr_or_name(e):
@@ -418,8 +511,18 @@ def conservation(ctx, o, S):
     fl = flow_of(fill)
     cfg = fl.cfg
     rc = sched.reserve_calls(ctx, fill)
-    if len(rc) != 1:
-        o.refute(fill, fill.node, 'reserve', f"fill loop contains {len(rc)} reservations per pass over a day (expected exactly one)")
+    if len(rc) == 0:
+        o.undecided(fill, fill.node, 'reserve', "no ledger reservation found in the fill function (delegated to a helper the rule does not follow?)")
+        return
+    if len(rc) > 1:
+        nodes = [cfg.node_containing(x) for x in rc]
+        lp = sched.while_loop_of(fill, rc[0])
+        entry = cfg.loop_entry_branch(lp) if lp is not None else None
+        seq = any(a is not b and a is not None and b is not None and _reach_avoiding(cfg, a, b, entry) for a in nodes for b in nodes)
+        if seq:
+            o.refute(fill, fill.node, 'reserve', f"fill loop contains {len(rc)} reservations per pass over a day (expected exactly one)")
+        else:
+            o.undecided(fill, fill.node, 'reserve', f"fill function contains {len(rc)} reservations on alternative paths")
         return
     c = rc[0]
     loop = sched.while_loop_of(fill, c)
